@@ -26,7 +26,8 @@ RULE = ("per case one generated rGFA with 2-5 chromosomes of which a random non-
 ASSUMPTIONS = ["non-chain = the block-cut tree is not a path (a block with >= 3 articulation points, an articulation point in >= 3 blocks)",
                "components without any articulation point or with haplotype articulation points are not generated (neither C06 nor C18 speaks about them)",
                "the reduced run is the reference for what 'as if the skipped one were absent' means"]
-NONCHAIN = ("block_with_3+_articulation_points", "articulation_point_in_3+_blocks", "not_two_end_blocks")
+NONCHAIN = ("block_with_3+_articulation_points", "articulation_point_in_3+_blocks", "not_two_end_blocks",
+            "no_articulation_point")
 
 
 def plan(tier):
@@ -47,7 +48,7 @@ def run_case(ctx, rng, index, casedir):
     sit = collections.Counter()
     viol = []
     n = rng.choice([2, 2, 3, 3, 4, 5])
-    kinds = ["tip", "cycle3", "cycle3_inner", "joined"]
+    kinds = ["tip", "cycle3", "cycle3_inner", "joined", "pair", "ring"]
     defects = {}
     bad_idx = rng.sample(range(n), rng.randint(1, max(1, n - 1)))
     for i in bad_idx:
